@@ -42,14 +42,28 @@ func c10PlanFor(tier string) c10Plan {
 	return c10Plan{nCorpus: len(c10Corpus), nHostile: len(c10Hostile), nNest: 60, nLong: 8, nRand: tierN(tier, 40000, 1000000), nProbe: 4}
 }
 
-var c10Benign = []interface{}{
+// c10Reachable: data in which every identifier the generators use resolves,
+// once to a string and once to a list, so that evaluating an accepted
+// expression reaches the operators (and not only "key not found").
+func c10Reachable() []interface{} {
+	strs := map[string]interface{}{}
+	lists := map[string]interface{}{}
+	for _, id := range xgen.IdentPool {
+		strs[id] = "abc"
+		lists[id] = []interface{}{"abc", 1, map[string]interface{}{"a": "abc", "b": []interface{}{"x"}}}
+	}
+	strs["b"] = map[string]interface{}{"c": "x"}
+	return []interface{}{strs, lists}
+}
+
+var c10Benign = append(c10Reachable(), []interface{}{
 	map[string]interface{}{"a": 1, "b": map[string]interface{}{"c": "x"}, "tags": []interface{}{"x", "y"}, "l": []interface{}{map[string]interface{}{"c": 0}}},
 	struct {
 		A int
 		B []string
 	}{1, []string{"x"}},
 	nil,
-}
+}...)
 
 // c10Check applies the totality oracle to one byte string.
 func c10Check(c *mon.Ctx, s string, origin string, budget uint64) {
@@ -341,7 +355,7 @@ func c10Run(c *mon.Ctx, idx int) {
 func init() {
 	mon.Register(&mon.Prop{
 		ID: "C10", Level: "exploration",
-		Rule: "byte strings: a 45-entry grammar-derived corpus with every prefix, suffix, single-byte deletion and 8 hostile single-byte insertions (0xff, NUL, quotes, parens, newline, backslash) at every position; a hand-made hostile list (invalid UTF-8, NUL, lone quotes, bad escapes, keyword misuse); nesting depth 1..60 of parentheses / not / quantifiers (parsed under a 2^18 step budget); 100 kB tokens; seeded token-level, byte-level and splice mutations of random derivations; each goes through grammar.Parse, CreateEvaluator, CreateFilter, then Evaluate on 3 benign data, Execute and ExpressionDump; finally flat right-recursive chains parsed without a budget in a journaled child process. non-trivial = accepted, or rejected through something other than a plain no-match (error production, unquote, encoding, budget); distinct by input bytes",
+		Rule: "byte strings: a 45-entry grammar-derived corpus with every prefix, suffix, single-byte deletion and 8 hostile single-byte insertions (0xff, NUL, quotes, parens, newline, backslash) at every position; a hand-made hostile list (invalid UTF-8, NUL, lone quotes, bad escapes, keyword misuse); nesting depth 1..60 of parentheses / not / quantifiers (parsed under a 2^18 step budget); 100 kB tokens; seeded token-level, byte-level and splice mutations of random derivations; each goes through grammar.Parse, CreateEvaluator, CreateFilter, then Evaluate on 5 benign data (in two of them every generated identifier resolves, to a string / to a list), Execute and ExpressionDump; finally flat right-recursive chains parsed without a budget in a journaled child process. non-trivial = accepted, or rejected through something other than a plain no-match (error production, unquote, encoding, budget); distinct by input bytes",
 		Assumptions: []string{"inputs whose parse exceeds the step budget are checked for totality of Parse/CreateEvaluator only (CreateFilter has no budget option)",
 			"the quick tier demonstrates the linear stack growth of unlimited parses with the Go stack limit lowered to 48 MB (150 000 conjuncts); the thorough tier uses the real 1 GB limit (2.5 million conjuncts)"},
 		NumCases: func(tier string) int {
